@@ -522,7 +522,11 @@ class TaskScenario(ScenarioData):
                                 dep_time_idx = self.project.dateToIdx(dep_time)
                                 # Skip gap_slots of working time
                                 working_slots = 0
-                                while working_slots < gap_slots:
+                                # Stop at the project end: a gap that does not fit the window puts
+                                # the bound beyond it (reported as not fitting) instead of running
+                                # off the calendar
+                                last_idx = self.project.dateToIdx(self.project["end"])
+                                while working_slots < gap_slots and dep_time_idx <= last_idx:
                                     if self.isWorkingTime(dep_time_idx):
                                         working_slots += 1
                                     dep_time_idx += 1
